@@ -40,6 +40,7 @@ type epConn struct {
 	delivered   int
 	published   bool
 	lastGoC     time.Duration // start time of the last successful GetOrCreate that returned it
+	resetOverlap bool         // a pool Reset ran while this endpoint was being created
 	failNext    bool          // handler fails on the next reply
 	ue          *UdpEndpoint
 	closeSeq    int
@@ -76,6 +77,7 @@ func (d *epDialWrap) DialContext(ctx context.Context, network, addr string) (net
 			}
 			if d.w.resetting > 0 {
 				d.w.kill(c, "dialled-during-reset")
+				c.resetOverlap = true
 			}
 		}
 	}
@@ -276,6 +278,9 @@ func epScenario(s *verifsim.Sim) {
 						s.Probe("endpoint.retired-by-invalidation")
 					}
 				}
+				if w.resetting > 0 {
+					c.resetOverlap = true
+				}
 				w.conns = append(w.conns, c)
 				w.byPC[c.pc] = c
 				if T.Chance(1, 3) {
@@ -378,7 +383,9 @@ func epScenario(s *verifsim.Sim) {
 		if c.pc.CloseCount > 0 && c.closedSeq(w) < startSeq {
 			s.Failf("dead-endpoint-returned", "%s(k%d) handed out endpoint c%d whose transport had already been closed (%s) before the call began", what, key, c.id, c.killWhy)
 		}
-		if c.mustNotRet && c.mustNotSeq < startSeq {
+		if c.mustNotRet && c.mustNotSeq < startSeq && c.resetOverlap {
+			s.Failf("invalidated-endpoint-returned@created-during-pool-reset", "%s(k%d) handed out endpoint c%d although its dialer was invalidated before it carried any traffic; the endpoint was created while UdpEndpointPool.Reset was clearing the dialer index / epoch maps, which orphaned it from later invalidations", what, key, c.id)
+		} else if c.mustNotRet && c.mustNotSeq < startSeq {
 			s.Failf("invalidated-endpoint-returned", "%s(k%d) handed out endpoint c%d although its dialer was invalidated before it carried any traffic", what, key, c.id)
 		}
 		return c
@@ -598,6 +605,9 @@ func epScenario(s *verifsim.Sim) {
 			spawn("reset", func() {
 				for _, c := range w.conns {
 					w.kill(c, "pool-reset")
+					if c.ue == nil && c.pc.CloseCount == 0 {
+						c.resetOverlap = true // still being created
+					}
 				}
 				w.resetting++
 				pool.Reset()
